@@ -113,9 +113,16 @@ pub open spec fn establish(settings: LdapConnSettings, url: Url, r: Result<Pair>
         match settings.conn_timeout { Some(t) => if timed_out(t, url, s2) { r is Err } else { r == tcp_outcome(url, s2) }, None => r == tcp_outcome(url, s2) }
     }
 }
+// Rust's str equality is equality of content (Verus' `==` on &str values is identity of the abstract value): needed because
+// the contracts here compare strings by value while `a == b` on two &str is specified over their contents
+#[verifier::external_body]
+pub broadcast proof fn axiom_str_eq_is_content_eq(a: &str, b: &str)
+    ensures (#[trigger] a@ == #[trigger] b@) ==> a == b
+{ }
 //@lift name=from_url_with_settings file=src/conn.rs fn=from_url_with_settings
+//@ insert entry
+    broadcast use axiom_str_eq_is_content_eq;
 //@ sub "Result<(Self, Ldap)>" => "Result<Pair>"
-//@ sub "url.scheme() == \"ldapi\"" => "verif_str_eq(url.scheme(), \"ldapi\")"
 //@ ret r
 //@ spec
     ensures
@@ -193,10 +200,16 @@ impl UnixConnFut {
 }
 impl UnixStream {
     #[verifier::external_body] pub fn connect(p: &str) -> (f: UnixConnFut) ensures f.path@ == p@ { unimplemented!() }
-    #[verifier::external_body] pub fn from_std(s: StdUnix) -> (r: Result<UnixStream>) ensures r matches Ok(st) ==> st.from_std { unimplemented!() }
+    // tokio: "The caller is responsible for ensuring that the stream is in non-blocking mode" -- a blocking descriptor stalls the runtime
+    #[verifier::external_body] pub fn from_std(s: StdUnix) -> (r: Result<UnixStream>)
+        requires nonblocking_unix(s), //# C04+C18.a_pre_opened_stream_is_switched_to_non_blocking_mode_before_tokio_gets_it
+        ensures r matches Ok(st) ==> st.from_std { unimplemented!() }
 }
 pub struct StdUnix { pub g: u8 }
-impl StdUnix { #[verifier::external_body] pub fn set_nonblocking(&self, b: bool) -> (r: Result<()>) { unimplemented!() } }
+// the mode the descriptor is in when it is handed over (a prophecy-style attribute: set_nonblocking fixes it; calling it twice
+// with different values would make the assumptions contradictory, which the unit's `ensures false` canary would expose)
+pub uninterp spec fn nonblocking_unix(s: StdUnix) -> bool;
+impl StdUnix { #[verifier::external_body] pub fn set_nonblocking(&self, b: bool) -> (r: Result<()>) ensures r is Ok ==> nonblocking_unix(*self) == b { unimplemented!() } }
 pub enum StdStream2 { Tcp(u8), Unix(StdUnix), Invalid }
 pub struct Settings2 { pub std_stream: Option<StdStream2> }
 // idioms: `path.contains(':')`, `percent_decode(path.as_bytes()).decode_utf8_lossy()` (RFC 3986 percent-decoding)
